@@ -32,7 +32,7 @@ static int run(std::string const &prefix, bool cross, std::vector<double> &out, 
 static double corr(double const *x, double const *y, int tau, long n) { double s = 0.0; for (int t = 9; t > 9 - n; t--) s += x[t] * y[t - tau]; return s / double(n); }
 int main(int argc, char **argv) {
   if (argc < 3) return 2;
-  char dir[] = "/var/tmp/cvacfXXXXXX"; if (!mkdtemp(dir)) return 2; if (chdir(dir)) return 2;
+  char dir[] = "./cvacfXXXXXX"; if (!mkdtemp(dir)) return 2; if (chdir(dir)) return 2;
   std::vector<double> autoc, cross; long na = 0, nc = 0;
   if (run("auto", false, autoc, na) || run("cross", true, cross, nc)) { std::cout << "REPLAY: configuration rejected or no output\n"; return 3; }
   if (autoc.size() < 4 || cross.size() < 4 || na <= 0 || nc <= 0) { std::cout << "REPLAY: correlation function output too short\n"; return 3; }
